@@ -508,6 +508,39 @@ def run_scenario(sc):
                                     net.ev("commit_ret", c=name, ok=False, exc=type(e).__name__)
                             if op[4] if len(op) > 4 else 0:
                                 await asyncio.sleep(op[4])
+                    elif kind == "consume_stop":
+                        # the application keeps polling with getmany() in this task while ANOTHER task calls stop()
+                        # op[1] seconds from now; what a pending getmany() returns during the shutdown still counts
+                        from aiokafka.errors import ConsumerStoppedError
+                        t0s = loop.time()
+
+                        async def stopper(c=c, op=op):
+                            await asyncio.sleep(op[1])
+                            res["stopping"] = True
+                            net.ev("stop_call", c=name)
+                            t1 = loop.time()
+                            try:
+                                await asyncio.wait_for(c.stop(), timeout=600.0)
+                                res["stop"] = {"t": loop.time() - t1, "returned": True}
+                            except asyncio.TimeoutError:
+                                res["stop"] = {"t": loop.time() - t1, "returned": False}
+                            net.ev("stop_ret", c=name, took=res["stop"]["t"], returned=res["stop"]["returned"])
+                        st_task = asyncio.ensure_future(stopper())
+                        while loop.time() - t0s < op[1] + 30.0:
+                            try:
+                                batch = await c.getmany(timeout_ms=int(op[2] * 1000))
+                            except ConsumerStoppedError:
+                                break
+                            except Exception as e:  # noqa: BLE001
+                                res["errors"].append({"t": loop.time(), "exc": type(e).__name__})
+                                net.ev("api_error", c=name, exc=type(e).__name__)
+                                await asyncio.sleep(0.05)
+                                continue
+                            for tp, msgs in batch.items():
+                                for m in msgs:
+                                    net.ev("deliver", c=name, topic=tp.topic, p=tp.partition, offset=m.offset,
+                                           rid=_rid(m.value))
+                        await st_task
                     elif kind == "commit":
                         try:
                             net.ev("commit_call", c=name)
